@@ -513,7 +513,7 @@ theorem invA_copy {s : State} (h : InvA s) (i : Nat) (r ro : Bool) : InvA (copy 
       · exact invA_copyNR h _ _
   · exact h
 
-theorem invA_negNR {s : State} (h : InvA s) (i : Nat) : InvA (negNR s i).2 := by
+theorem invA_negNR {s : State} (h : InvA s) (i : Nat) (u d : Bool) : InvA (negNR s i u d).2 := by
   unfold negNR
   split
   · rename_i o ho
@@ -530,12 +530,12 @@ theorem invA_negNR {s : State} (h : InvA s) (i : Nat) : InvA (negNR s i).2 := by
   · exact h
 
 theorem invA_negStep (c : Nat) (s : State) (kd : Nat × Nat) (h : InvA s) : InvA (negStep c s kd) :=
-  invA_insertDeriv (invA_negNR h _) _ _ _ _
+  invA_insertDeriv (invA_negNR h _ _ _) _ _ _ _
 
-theorem invA_neg {s : State} (h : InvA s) (i : Nat) : InvA (neg s i).2 := by
+theorem invA_neg {s : State} (h : InvA s) (i : Nat) (u d : Bool) : InvA (neg s i u d).2 := by
   unfold neg
   split
-  · exact invA_foldl _ (invA_negStep _) _ _ (invA_negNR h _)
+  · exact invA_foldl _ (invA_negStep _) _ _ (invA_negNR h _ _ _)
   · exact h
 
 theorem decode_ok (s : State) (o : Obj) (mc : MaskClass) (_hv : valOK s o.vals) (hm : mskOK s o.mask) :
@@ -897,7 +897,7 @@ theorem invA_step {s : State} (h : InvA s) (op : Op) : InvA (step s op).1 := by
   case wod => split <;> first | exact invA_wodOf h _ | exact h
   case clone => split <;> first | exact invA_clone h _ _ | exact h
   case copy => split <;> first | exact invA_copy h _ _ _ | exact h
-  case neg => split <;> first | exact invA_neg h _ | exact h
+  case neg => split <;> first | exact invA_neg h _ _ _ | exact h
   case pickle => split <;> first | exact invA_unpickle h _ _ _ | exact h
   case getDeriv => split <;> (try split) <;> exact h
   case rawRef => split <;> first | exact invA_arrays h (Ext.of_same rfl rfl) rfl | exact h
